@@ -41,6 +41,9 @@ struct G {
   runic: Vec<String>,
   height: usize,
   tag: String,
+  /// outputs whose first sat carries an inscription revealed by a first envelope without pointer;
+  /// the flag says whether that envelope was of a cursed shape
+  first_sat_inscribed: std::collections::BTreeMap<String, bool>,
 }
 
 fn name_from(n: usize, len: usize) -> String {
@@ -95,7 +98,19 @@ impl G {
     self.next_tx += 1;
     let n_in = self.rng.gen_range(1..=3.min(self.utxos.len()));
     let mut ins = Vec::new();
-    for _ in 0..n_in {
+    // reinscription: spend an output whose first sat already carries an inscription as the first input and reveal a
+    // clean envelope on it (over a cursed first inscription this one is blessed before the jubilee, else cursed)
+    let mut reinscribe = false;
+    if cfg.inscriptions && self.rng.gen_bool(0.2) {
+      if let Some(pos) = self.utxos.iter().position(|u| u.v > 0 && self.first_sat_inscribed.contains_key(&u.label)) {
+        ins.push(self.utxos.remove(pos));
+        reinscribe = true;
+      }
+    }
+    for _ in ins.len()..n_in {
+      if self.utxos.is_empty() {
+        break;
+      }
       // prefer recent outputs (same-block spends) half of the time
       let i = if self.rng.gen_bool(0.5) {
         let lo = self.utxos.len().saturating_sub(4);
@@ -131,7 +146,7 @@ impl G {
       ..Default::default()
     };
 
-    if cfg.inscriptions && self.rng.gen_bool(0.55) {
+    if cfg.inscriptions && (reinscribe || self.rng.gen_bool(0.55)) {
       let n_env = self.rng.gen_range(1..=3);
       let mut envs = Vec::new();
       for _ in 0..n_env {
@@ -158,8 +173,9 @@ impl G {
         e.even = self.rng.gen_bool(0.07);
         e.dup = self.rng.gen_bool(0.07);
         e.incomplete = self.rng.gen_bool(0.05);
-        e.pushnum = self.rng.gen_bool(0.07);
-        e.stutter = self.rng.gen_bool(0.07);
+        // cursed shapes are common enough that later reinscriptions often sit on a cursed first inscription
+        e.pushnum = self.rng.gen_bool(0.15);
+        e.stutter = self.rng.gen_bool(0.15);
         e.hidden = self.rng.gen_bool(0.3);
         if self.rng.gen_bool(0.35) {
           let n_par = self.rng.gen_range(1..=3);
@@ -205,8 +221,20 @@ impl G {
         }
       }
       envs.sort_by_key(|e| e.input);
+      if reinscribe {
+        // the first envelope: first input, no pointer, no flaw
+        let l = envs[0].label.clone();
+        envs[0] = EnvSpec { label: l, input: 0, ..Default::default() };
+      }
       for e in &envs {
         self.env_labels.push(e.label.clone());
+      }
+      // where the first envelope's inscription sits afterwards, if that is easy to tell
+      if let Some(e) = envs.first() {
+        if e.input == 0 && e.pointer.is_none() && !e.even && ins[0].v > 0 && tx.outs.first().is_some_and(|o| o.v > 0 && o.t != "opret" && o.t != "stone") {
+          let cursed_shape = e.dup || e.incomplete || e.pushnum || e.stutter;
+          self.first_sat_inscribed.insert(format!("{label}:0"), cursed_shape);
+        }
       }
       tx.envs = envs;
     }
@@ -403,6 +431,7 @@ impl G {
       runic: Vec::new(),
       height: 0,
       tag: tag.to_string(),
+      first_sat_inscribed: Default::default(),
     }
   }
 
@@ -642,7 +671,7 @@ impl G {
 /// (indexed as headers only, so spending their outputs makes ord fetch the values from the node),
 /// followed by ledger-family blocks that spend the last `keep` of those coinbases.
 pub fn signet_fetch(seed: u64, tag: &str, blocks: usize, flags: &[&str]) -> Scenario {
-  let cfg = GenCfg { blocks, max_txs: 4, inscriptions: true, runes: flags.contains(&"runes"), update_every: 3, reopen: false, dup_coinbase: false, junk: false };
+  let cfg = GenCfg { blocks, max_txs: 4, inscriptions: true, runes: true, update_every: 3, reopen: false, dup_coinbase: false, junk: false };
   let mut g = G::new(seed, tag);
   let n = 112_402usize;
   let keep = 30usize;
